@@ -14,7 +14,7 @@ def main(argv):
         mod.setup(ctx)
     total = mod.plan(tier)['cases']
     C.run_indices(mod, ctx, range(shard, total, nshards))
-    if hasattr(mod, 'stress') and shard == 0 and tier == 'thorough':
+    if hasattr(mod, 'stress') and shard == 0:
         C.run_indices(type('S', (), {'run_case': staticmethod(
             lambda c, i: mod.stress(c))}), ctx, ['stress'])
     if hasattr(mod, 'finish'):
